@@ -23,6 +23,7 @@ SPEC = {
         'defines': ['-DREPLACE_BY_CONTRACT', '-DENV_MALLOC_CAP=112'],
         'obligations': [
             ob('harness_msg_1_1', bounds='group of 1 failing test; failure message 0..2 bytes ' + A + REST),
+            ob('harness_after_failing_group_1_0', timeout=1200, bounds='a run of two groups: first a group with one failing test (its file is not judged), then the judged group of 1 passing test; ' + REST),
             ob('harness_two_failures_2_01', timeout=1200, bounds='group of 2 tests: the first reports TWO failures (the second one after its failed check), the second passes; failure message 0..2 bytes ' + A + REST),
             ob('harness_printed_1_0', bounds='group of 1 passing test; printed text 0..2 bytes ' + A + REST),
             ob('harness_name_only_1_2', bounds='group of 1 ignored test; test name 0..2 bytes ' + A + ' without & < " LF' + REST),
